@@ -1,1 +1,47 @@
-From MM Require Import Model.Conn.
+(* Props/C11.v - Server-side cursors deliver every row exactly once, in order. *)
+From Coq Require Import List Arith NArith Lia Bool.
+From MM Require Import Lib.Bytes Model.Conn Model.Resp Proofs.RespProofs Proofs.FetchProofs Gen.FactsConn.
+Import ListNotations.
+Open Scope N_scope.
+
+Definition BATCH : N := utils_batch_size.
+
+Theorem c11_source_shape :
+  translated_conn = true /\ connection_connection_handle_stmt_fetch_ok = true /\
+  connection_connection_handle_stmt_execute_ok = true /\ connection_connection_handle_stmt_reset_ok = true /\
+  connection_connection_handle_stmt_close_ok = true /\ connection_connection_get_stmt_ok = true /\
+  utils_cooperative_iterate_ok = true /\ utils_aiterate_ok = true /\
+  status_cursor_exists = FL_CURSOR_EXISTS /\ status_last_row_sent = FL_LAST_ROW_SENT.
+Proof. repeat split; reflexivity. Qed.
+
+(* one fetch of `want` rows on a cursor whose source still holds `items` (rows, waits, possibly a raise):
+   the rows written are the next min(want, rows left) ones, in order, each pulled row is written *)
+Theorem c11_fetch_spec : forall id items fuel j c want i0, (length items < fuel)%nat -> c <= want ->
+  let '(k, c') := fetch_plan BATCH fuel id items j c want i0 in
+  c' = N.min want (c + N.of_nat (nrows items)) /\
+  plan_pkts k = row_pkts (seqN (i0 + c) (N.to_nat (c' - c))) /\
+  pulls k = N.to_nat (c' - c).
+Proof. exact (fetch_plan_spec BATCH). Qed.
+
+(* for every result length and every sequence of fetch sizes: the concatenation of what the fetches
+   deliver is the prefix 0 .. min(total requested, rows) - 1 of the result *)
+Theorem c11_every_row_once_in_order : forall id wants items pos, has_raise items = false ->
+  concat (map fst (fetches BATCH id items pos wants)) =
+  row_pkts (seqN pos (N.to_nat (N.min (sumN wants) (N.of_nat (nrows items))))).
+Proof. exact (fetches_deliver_prefix BATCH). Qed.
+
+(* last-row-sent is flagged exactly on a fetch that could not be filled *)
+Theorem c11_last_row_flag : forall id items pos w,
+  let '(k, c) := fetch_plan BATCH (S (length items)) id items pos 0 w pos in
+  (c <? w) = (N.of_nat (nrows items) <? w).
+Proof. exact (fetch_flag BATCH). Qed.
+
+(* the packets of a fetch form a response of the protocol grammar *)
+Theorem c11_fetch_response : forall dep idx (is_last : bool),
+  accepts dep RKFetch (row_pkts idx ++ [term_pkt dep (if is_last then FL_LAST_ROW_SENT else FL_CURSOR_EXISTS)]) = true.
+Proof. exact fetch_accepted. Qed.
+
+Example c11_seven_rows_2_2_5 :
+  map fst (fetches BATCH 0 (repeat (IRow 3) 7) 0 [2; 2; 5]) =
+  [[PRow 0; PRow 1]; [PRow 2; PRow 3]; [PRow 4; PRow 5; PRow 6]].
+Proof. vm_compute. reflexivity. Qed.
